@@ -765,6 +765,8 @@ example : (assertModel { api := .expectThat, existing := [], mismatch := some []
     = { raised := false, continued := true, names := [⟨0, 0⟩], forceFailure := true, outcome := .failure, propagated := false } := by decide
 example : (assertModel { api := .expectThat, existing := [], mismatch := some [2], after := .xfail, cleanups := [.skip],
                          place := .setUp }).outcome = .failure := by decide
+-- recorded in setUp before the upcall to the base setUp, setUp then returns: still a failure
+example : (assertModel { api := .expectThat, existing := [], mismatch := some [], place := .setUpEarly }).outcome = .failure := by decide
 example : (assertModel { api := .expectThat, existing := [], mismatch := none, after := .skip, tearDown := .error,
                          place := .setUp }).outcome = .skip := by decide
 
@@ -932,7 +934,7 @@ theorem intr_mem_stages (a : AssertIn) : Exn.intr ∈ stageExns false a ↔ inte
     simp [hn, htd]
 
 /-- **C07 (a failed expectation fails the test — whatever happens afterwards).**  If `expectThat` recorded a
-mismatch — in the test method or in `setUp` (`a.place`) —, then for every continuation of the test — the rest of
+mismatch — in the test method or in `setUp`, before or after its upcall (`a.place`) —, then for every continuation of the test — the rest of
 that stage, `tearDown` (which does not run when `setUp` gave up) and any number of cleanups each returning, skipping, raising an expected failure, an unexpected success, a failure, an
 error or a `KeyboardInterrupt` — the run is reported with `addFailure` (the forced `AssertionError` is
 appended last to the collected exceptions, and `_select_exception` prefers the last exception that is not
